@@ -191,12 +191,14 @@ def _crash_result(job, how, stderr_tail):
                          "the library crashed / aborted / hung (%s) while encoding or decoding: plan=%r input=%r\n%s" % (
                              how, job["plan"], job["inp"], stderr_tail[-2500:]))])
 
-def run_all(jobs, procs=4, job_timeout=300, workdir="/var/tmp", log=None):
+def run_all(jobs, procs=4, job_timeout=300, workdir="/var/tmp", log=None, after_spawn=None):
     """Run jobs in forked worker processes; returns results in job order.  A worker that dies (sanitizer report,
     assertion, signal) or makes no progress for job_timeout seconds is charged to the job it was running (reported as
     a crash result) and replaced, so one crashing configuration cannot hide the others or hang the check."""
     import multiprocessing as mp, select
     if procs <= 1:
+        if after_spawn is not None:
+            after_spawn()
         return [run_case(j) for j in jobs]
     ctxm = mp.get_context("fork")
     results = [None] * len(jobs)
@@ -213,6 +215,8 @@ def run_all(jobs, procs=4, job_timeout=300, workdir="/var/tmp", log=None):
         workers[w] = dict(proc=p, conn=pr, share=share, cur=None, t=time.time(), err=errpath)
     for w in range(procs):
         spawn(w, shares[w])
+    if after_spawn is not None:
+        after_spawn()           # background threads of the caller start only after the workers were forked
     tlog = time.time()
     while workers:
         if log and time.time() - tlog > 120:
